@@ -3,18 +3,24 @@
 #
 # Under contract (real bodies, verbatim): xml_escape; TelemetryData::{new,to_xml,get_size,add_event,remove_last_event,event_count};
 #   TelemetryEvent::to_xml_event; EventReader::{clean_files,send_data_to_wire_server,send_events,process_events_and_clean}.
-# Stubs (real signature, assumed contract): WireServerClient::send_telemetry_data (trace append), TelemetryEvent::from_event_log
-#   (== tev_of), logger::write, logger::write_warning, misc_helpers::json_read_from_file (no contract).
-# Ghost trace (E4): Trace{posts, batches, attempts, last_ok, removed}; `posts` is written only by the send_telemetry_data stub,
-#   `removed` only by the remove_file redirect; batches/attempts/last_ok are bookkeeping written by a proof block in
-#   send_data_to_wire_server and tied to `posts` by Trace::wf (proved, not assumed).
+#   WireServerClient::send_telemetry_data (wire_server_client.rs) is under contract too (real body): the upload itself.
+# Stubs (real signature, assumed contract): hyper_client::build_request (the request carries the given body: proved in unit sign),
+#   TelemetryEvent::from_event_log (== tev_of), logger::write, logger::write_warning, misc_helpers::json_read_from_file (no contract).
+# Ghost trace (E4): Trace{wire, posts, batches, attempts, last_ok, removed}; `wire` is written only by the redirect (E9) of
+#   hyper_client::send_request (body bytes of the request + status of the host's response), `removed` only by the remove_file
+#   redirect; posts/batches/attempts/last_ok are bookkeeping written by proof blocks: `posts` in send_telemetry_data, tied to
+#   `wire` by that function's proved contract; batches/attempts/last_ok in send_data_to_wire_server, tied to `posts` by
+#   Trace::wf (proved, not assumed).
 import os
 import re
 HERE = os.path.dirname(os.path.abspath(__file__))
 COMMON = os.path.join(os.path.dirname(HERE), "common")
 
 ASSUMPTIONS = [
-    "WireServerClient::send_telemetry_data (stub, real signature): appends exactly one Post{body, ok = result is Ok} to the ghost trace when the body is non-empty and nothing when it is empty (its real body returns Ok(()) before sending in that case); this is the only place where an upload enters the trace",
+    "hyper_client::send_request is the write primitive of the upload (hyper plumbing, kept outside verus!{}); its awaited call in send_telemetry_data is redirected (E9+E4 vx_e9_send_request) to a stub that appends WirePost{body = every byte of the request's body, status = status code of the host's response, None when there is no response} to the ghost trace and touches nothing else; this is the only place where an upload enters the trace",
+    "hyper_client::build_request (stub, real signature): when it returns Ok the request's body is exactly the given body (the clause @C04.build_request.body_sent_is_the_body_signed proved against its real body in unit sign); it may fail",
+    "String::as_bytes is the UTF-8 encoding of the string (vstd::utf8::encode_utf8); http::StatusCode::is_success is 200 <= code <= 299 (http crate documentation); hyper::Response::status reads the response's status (contracts/common/http.rs)",
+    "E9 in send_telemetry_data, no contract beyond the result type: `url.parse::<hyper::Uri>().map_err(closure)` (may fail), `Method::POST`; optional (not used by the pinned tree): the StatusCode constants have their documented codes, `==`/`!=` on StatusCode compare the numeric codes, as_u16 / is_informational / is_redirection / is_client_error / is_server_error as documented; format! of the URL and of the error texts is unconstrained",
     "TelemetryEvent::from_event_log (stub) is a function of (event, vm_meta_data): the system facts it reads (OS version, RAM, CPU count, CPU architecture) do not change during one call of send_events; tev_of is uninterpreted, so every result holds for whatever the function computes",
     "derived Clone of VmMetaData returns an equal value (E9 vx_e9_vm_meta_data_clone; Verus gives no spec to derived Clone of non-Copy structs)",
     "str::replace(char, &str) is the per-character flat map `repl` (std documentation)",
@@ -126,6 +132,90 @@ def unit_ret(u, sf, path):
     return [(it["sig"][1], it["sig"][1], " -> (r: ())")]
 
 
+def ext_fns_verbatim(u, sf, modname, uses, fn_paths):
+    """E1: functions copied byte-for-byte into a plain-Rust module OUTSIDE verus!{} (rustc checks them against the real
+    crates; Verus never looks at them: they are reached only through E9 stubs whose contracts are assumptions)."""
+    from vxlib import apply_edits
+    saved = u.pieces
+    u.pieces = u.ext_pieces
+    u.emit("pub mod %s {\n#![allow(unused_imports, dead_code, non_snake_case)]\n%s" % (modname, uses), "glue", "E1")
+    for p in fn_paths:
+        it = sf.item(p, "fn")
+        u.pieces += apply_edits(sf, it["span"][0], it["span"][1], [])
+        u.emit("", "glue")
+        u.rule("E1", "fn %s kept outside verus! verbatim (not verified)  <- %s:%d" % (p, sf.rel, sf.line_of(it["span"][0])))
+    u.emit("} // mod %s" % modname, "glue", "E1")
+    u.pieces = saved
+
+
+STATUS_CONSTS = {"OK": 200, "CREATED": 201, "ACCEPTED": 202, "NO_CONTENT": 204, "MULTIPLE_CHOICES": 300, "BAD_REQUEST": 400, "FORBIDDEN": 403,
+                 "NOT_FOUND": 404, "INTERNAL_SERVER_ERROR": 500, "BAD_GATEWAY": 502, "SERVICE_UNAVAILABLE": 503}
+REQ_T = "hyper::Request<http_body_util::combinators::BoxBody<hyper::body::Bytes, hyper::Error>>"
+FRAME_BUT_WIRE = "final(tr).posts == old(tr).posts, final(tr).batches == old(tr).batches, final(tr).attempts == old(tr).attempts, final(tr).last_ok == old(tr).last_ok, final(tr).removed == old(tr).removed"
+
+
+def build_send_telemetry_data(u, wsc):
+    """WireServerClient::send_telemetry_data under contract (real body). The contract is written from the statement: at-most-once
+    delivery needs (a) an empty document is not sent, (b) one call sends at most ONE request and that request carries exactly the
+    document, (c) the caller is told Ok if and only if the host accepted the document (2xx): an accepted batch reported as failed
+    would be POSTed again by the retry loop, a refused one reported as sent would be lost silently.
+    Ghost: `wire` is appended only by the redirect of hyper_client::send_request (assumed); the attempt entry of `posts` is
+    bookkeeping: pushed as 'not accepted' when the call starts with a non-empty document and set to the host's verdict right after
+    a request was handed to the network. Everything is located through the syn index (no text anchors into the body)."""
+    from vxlib import Undecided
+    path = "WireServerClient::send_telemetry_data"
+    it = wsc.item(path, "fn")
+    if len(it["params"]) != 2 or it["params"][0]["name"] != "self":
+        raise Undecided("send_telemetry_data: expected (&self, document)")
+    DOC = it["params"][1]["name"]
+    e9, hints = [], []
+    # E9: String::parse::<Uri>() + the closure building the crate's (opaque) error value; the String is moved into the closure
+    for n, c in enumerate([c for c in it["calls"] if c["kind"] == "method" and c["callee"] == "map_err"]):
+        recv = wsc.s(c["receiver"][0], c["receiver"][1])
+        m = re.match(r"^(\w+)\s*\.\s*parse::<hyper::Uri>\(\)$", recv.strip())
+        if not m:
+            raise Undecided("send_telemetry_data: map_err on something that is not `<var>.parse::<hyper::Uri>()`")
+        e9.append((tuple(c["span"]), None, "%s: String" % m.group(1), m.group(1), "Result<hyper::Uri>", "", dict(name="vx_e9_parse_wire_server_url_%d" % n)))
+    # E9: associated consts of dependency types
+    e9.append(("Method::POST", "all", "", "", "http::Method", "", dict(name="vx_e9_method_post", optional=True)))
+    for nm, code in STATUS_CONSTS.items():   # not used by the pinned tree: an edit of the status check that names one is decided
+        e9.append(("StatusCode::" + nm, "all", "", "", "http::StatusCode", "    ensures status_code(r) == %d," % code,
+                   dict(name="vx_e9_status_" + nm.lower(), optional=True, body="http::StatusCode::" + nm)))
+    # E9+E4: every awaited call of hyper_client::send_request: THE write primitive; the stub records what is handed to the network
+    # and what the host answered
+    for c in [c for c in it["calls"] if c["kind"] == "path" and c["callee"].replace(" ", "").split("::")[-1] == "send_request"]:
+        aw = [a for a in it["awaits"] if a["base"] == c["span"]]
+        if len(aw) != 1 or len(c["args"]) != 4 or wsc.s(c["args"][3][0], c["args"][3][1]).strip() != "logger::write_warning" \
+                or c["callee"].replace(" ", "") != "hyper_client::send_request":
+            raise Undecided("send_telemetry_data: call of send_request is not `hyper_client::send_request(host, port, request, logger::write_warning).await`")
+        a0, a1, a2 = [wsc.s(x[0], x[1]).strip() for x in c["args"][:3]]
+        e9.append((tuple(aw[0]["span"]), None, "host: &String, port: u16, request: %s, %s" % (REQ_T, TR), "%s, %s, %s, Tracked(tr)" % (a0, a1, a2),
+                   "Result<hyper::Response<hyper::body::Incoming>>", """
+    ensures final(tr).wire == old(tr).wire.push(WirePost { body: box_body_bytes(req_body(request)), status: match r { Ok(resp) => Some(status_code(resp_status(resp))), Err(_) => None } }),
+            %s,""" % FRAME_BUT_WIRE,
+                   dict(name="vx_e9_send_request", is_async=True, body="hyper_client::send_request(host, port, request, logger::write_warning).await")))
+        # ghost bookkeeping: the attempt's outcome is the host's verdict on the request just handed to the network
+        hints.append(_anchor_at(wsc, it, aw[0]["span"][0], aw[0]["span"][1]) + ("after", """proof {
+            if %(DOC)s@.len() > 0 && tr.posts.len() > 0 {
+                tr.posts = tr.posts.drop_last().push(Post { body: %(DOC)s@, ok: host_accepted(tr.wire.last()) });
+            }
+        }""" % dict(DOC=DOC)))
+    u.take_fn(wsc, path, ghost=TR, contract="""
+        ensures
+            %(DOC)s@.len() == 0 ==> r is Ok && final(tr).wire == old(tr).wire,  // @C18.send_telemetry_data.empty_document_is_ok_and_nothing_is_sent
+            %(DOC)s@.len() > 0 ==> (r is Err && final(tr).wire == old(tr).wire)
+                || (final(tr).wire.len() == old(tr).wire.len() + 1 && final(tr).wire.drop_last() == old(tr).wire && final(tr).wire.last().body == utf8_bytes(%(DOC)s@)),  // @C18.send_telemetry_data.at_most_one_request_and_it_carries_exactly_the_document
+            %(DOC)s@.len() > 0 && final(tr).wire.len() > old(tr).wire.len() ==> ((r is Ok) <==> host_accepted(final(tr).wire.last())),  // @C18.send_telemetry_data.ok_iff_the_host_answered_2xx
+            final(tr).posts == (if %(DOC)s@.len() == 0 { old(tr).posts } else { old(tr).posts.push(Post { body: %(DOC)s@, ok: r is Ok }) }),  // @C18.send_telemetry_data.one_attempt_recorded_ok_iff_accepted
+            old(tr).host_agrees() ==> final(tr).host_agrees(),  // @C18.send_telemetry_data.attempts_recorded_as_accepted_are_what_the_host_accepted
+            final(tr).batches == old(tr).batches, final(tr).attempts == old(tr).attempts, final(tr).last_ok == old(tr).last_ok, final(tr).removed == old(tr).removed,
+""" % dict(DOC=DOC), pre_body="""broadcast use group_upload, group_http_fmt, group_fmt_telemetry, lemma_wire_accepts_push, lemma_post_accepts_push;
+proof {
+    // an upload attempt begins: not accepted by the host unless it says so
+    if %(DOC)s@.len() > 0 { tr.posts = tr.posts.push(Post { body: %(DOC)s@, ok: false }); }
+}""" % dict(DOC=DOC), e9=e9, hints=hints)
+
+
 def build_event_reader(u, er):
     u.take(er, "EventReader::MAX_MESSAGE_SIZE", "impl_const")
     u.take_fn(er, "EventReader::clean_files", ret="", ghost=TR, contract="""
@@ -148,6 +238,7 @@ def build_event_reader(u, er):
                 tr.posts == old(tr).posts + fails(xml_of(telemetry_data@), it.index@ as int),  // @C18.send_data_to_wire_server.resent_only_after_failure
             invariant
                 it.seq().len() == 5,
+                tr.host_agrees(),  // @C18.send_data_to_wire_server.inv.host_accepted_exactly_the_attempts_recorded_as_accepted
                 tr.batches == old(tr).batches, tr.attempts == old(tr).attempts, tr.last_ok == old(tr).last_ok, tr.removed == old(tr).removed,
             ensures
                 1 <= tr.posts.len() - old(tr).posts.len() <= 5,  // @C18.send_data_to_wire_server.at_most_5_attempts
@@ -251,6 +342,7 @@ def build(u):
     u.features.append("pattern")
     u.externs.append("serde_derive")
     u.raw(open(os.path.join(COMMON, "std_string.rs")).read())   # axiom_to_string_string (String::to_string gives an equal string)
+    u.raw(open(os.path.join(COMMON, "http.rs")).read())   # http / hyper types and their assumed specs (Response::status, ...)
     u.raw_file("deps.rs")
     u.raw_file("spec.rs")
 
@@ -262,6 +354,7 @@ def build(u):
     tw = u.src("proxy_agent/src/shared_state/telemetry_wrapper.rs")
     asw = u.src("proxy_agent/src/shared_state/agent_status_wrapper.rs")
     wsc = u.src("proxy_agent/src/host_clients/wire_server_client.rs")
+    hc = u.src("proxy_agent/src/common/hyper_client.rs")
 
     with u.mod("proxy_agent_shared"):
         with u.mod("telemetry"):
@@ -269,18 +362,33 @@ def build(u):
         with u.mod("error"):
             u.take_ext(serr, ["Error", "ParseVersionErrorType", "CommandErrorType"], "vx_ext_shared_error")
         with u.mod("result", uses="use super::error::Error;"):
-            u.raw("pub type Result<T> = core::result::Result<T, Error>;")
+            u.raw("pub type Result<T> = core::result::Result<T, Error>;", names=("Result",))
         with u.mod("misc_helpers", uses="use crate::proxy_agent_shared::result::Result;\nuse serde::de::DeserializeOwned;\nuse std::path::{Path, PathBuf};"):
             u.take_fn(smisc, "json_read_from_file", external_body=True)
 
+    # the write primitive of the upload (hyper plumbing): outside verus!, reached only through vx_e9_send_request
+    ext_fns_verbatim(u, hc, "vx_ext_send", "use crate::common::error::{Error, HyperErrorType};\nuse crate::common::result::Result;\nuse hyper::Request;\nuse hyper_util::rt::TokioIo;\nuse tokio::net::TcpStream;",
+                     ["send_request", "build_http_sender"])
     with u.mod("common"):
         with u.mod("error"):
-            u.take_ext(err, ["Error", "HyperErrorType", "WireServerErrorType", "KeyErrorType", "AclErrorType", "BpfErrorType"], "vx_ext_error", uses="use http::{uri::InvalidUri, StatusCode};")
+            # the error enums are kept verbatim outside verus!{} (thiserror derives intact). Error and WireServerErrorType are declared
+            # TRANSPARENT external types: send_telemetry_data constructs Error::WireServer(WireServerErrorType::Telemetry, text)
+            u.take_ext(err, ["Error", "HyperErrorType", "WireServerErrorType", "KeyErrorType", "AclErrorType", "BpfErrorType"], "vx_ext_error", uses="use http::{uri::InvalidUri, StatusCode};", opaque=False, transparent=False)
+            for n in ("Error", "WireServerErrorType"):
+                u.emit("#[verifier::external_type_specification]\npub struct VxEx_vx_ext_error_%s(crate::vx_ext_error::%s);" % (n, n), "glue", "E1")
+            for n in ("HyperErrorType", "KeyErrorType", "AclErrorType", "BpfErrorType"):
+                u.emit("#[verifier::external_type_specification]\n#[verifier::external_body]\npub struct VxEx_vx_ext_error_%s(crate::vx_ext_error::%s);" % (n, n), "glue", "E1")
         with u.mod("result", uses="use super::error::Error;"):
-            u.raw("pub type Result<T> = core::result::Result<T, Error>;")
+            u.raw("pub type Result<T> = core::result::Result<T, Error>;", names=("Result",))
         with u.mod("logger"):
             u.take_fn(logger, "write", external_body=True, ret="")
             u.take_fn(logger, "write_warning", external_body=True, ret="")
+        with u.mod("hyper_client", uses="pub use crate::vx_ext_send::send_request;", auto_uses=hc):
+            # stub with the real signature; the clause is the one proved against the real body in unit sign
+            # (@C04.build_request.body_sent_is_the_body_signed)
+            u.take_fn(hc, "build_request", external_body=True, contract="""
+        ensures r matches Ok(req) ==> box_body_bytes(req_body(req)) == opt_slice(body),
+""")
         with u.mod("helpers"):
             u.take_fn(helpers, "xml_escape", contract="""
     ensures r@ == esc(s@),  // @C18.xml_escape.is_entity_encoding
@@ -296,13 +404,12 @@ def build(u):
         with u.mod("agent_status_wrapper"):
             u.placeholder_ext(asw, ["AgentStatusSharedState"], "vx_ph_asw")
     with u.mod("host_clients"):
-        with u.mod("wire_server_client", uses="use crate::common::result::Result;\nuse crate::shared_state::key_keeper_wrapper::KeyKeeperSharedState;"):
-            u.take(wsc, "WireServerClient", "struct", extra_attrs="#[verifier::external_body]")
+        with u.mod("wire_server_client", auto_uses=wsc):
+            u.take(wsc, "WireServerClient", "struct")
+            u.take(wsc, "TELEMETRY_DATA_URI", "const")
             with u.impl_(wsc, "WireServerClient"):
-                u.take_fn(wsc, "WireServerClient::send_telemetry_data", external_body=True, ghost="Tracked(tr): Tracked<&mut Trace>", contract="""
-        ensures final(tr).posts == (if xml_data@.len() == 0 { old(tr).posts } else { old(tr).posts.push(Post { body: xml_data@, ok: r is Ok }) }),
-                final(tr).batches == old(tr).batches, final(tr).attempts == old(tr).attempts, final(tr).last_ok == old(tr).last_ok, final(tr).removed == old(tr).removed,
-""")
+                build_send_telemetry_data(u, wsc)
+            u.flush_e9()
 
     with u.mod("telemetry"):
         with u.mod("event_reader", uses=ER_USES):
